@@ -154,6 +154,17 @@ def unit_model(tier):
             bad = [m.name for m in (node.body if node else []) if isinstance(m, ast.FunctionDef) and m.name in ('__eq__', '__hash__')]
             goals.append((f'{cls} keeps identity __eq__/__hash__ {bad}', z3.BoolVal(node is not None and not bad)))
             u.sources.function(module, f'{cls}.__init__')
+        # no home-made memo next to the decorator: nothing keyed by id(obj) (addresses are recycled) and no module-level mutable
+        # container used as a cache in the modules of the cached classes
+        for module in ('gemdat.metrics', 'gemdat.transitions', 'gemdat.jumps', 'gemdat.collective', 'gemdat.caching'):
+            info = u.sources.load(module)
+            ids = [f'line {n.lineno}' for n in ast.walk(info['ast']) if isinstance(n, ast.Call) and isinstance(n.func, ast.Name) and n.func.id == 'id']
+            goals.append((f'{module}: no id()-keyed state {ids}', z3.BoolVal(not ids)))
+            glob = [t.id for n in info['ast'].body if isinstance(n, (ast.Assign, ast.AnnAssign))
+                    for t in (n.targets if isinstance(n, ast.Assign) else [n.target]) if isinstance(t, ast.Name)
+                    and isinstance(n.value, (ast.Dict, ast.List, ast.Set, ast.Call)) and not (isinstance(n.value, ast.Call) and ast.unparse(n.value.func) in ('re.compile', 'files', 'Literal'))
+                    and (isinstance(n.value, (ast.Dict, ast.List, ast.Set)) or ast.unparse(n.value.func) in ('dict', 'list', 'set', 'defaultdict', 'OrderedDict', 'WeakKeyDictionary', 'weakref.WeakKeyDictionary'))]
+            goals.append((f'{module}: no module-level mutable container (possible hidden cache) {glob}', z3.BoolVal(not glob)))
         return goals
     u.lemma('C20.inv.identity-equality-of-cached-classes', classes)
     return u
